@@ -70,7 +70,7 @@ def scenario_text(S):
     for I in S['insts']:
         ps = ', '.join('int[0,30000] %s' % p for p in I['params'])
         args = ', '.join(str(a[1]) if a[0] == 'c' else I['params'][a[1]] for a in I['args'])
-        sysl += '%s%s = %s(%s);\n' % (I['name'], '(%s)' % ps if I['params'] else ('()' if hash(I['name']) % 2 else ''), I['srcname'], args)
+        sysl += '%s%s = %s(%s);\n' % (I['name'], '(%s)' % ps if I['params'] else ('()' if sum(map(ord, I['name'])) % 2 else ''), I['srcname'], args)
     sysl += 'system %s;\n' % ', '.join(n for _, n in S['system'])
     return decl, sysl
 
